@@ -52,30 +52,35 @@ def main():
         terrs = vlib.regenerate()
         for f, e in terrs.items():
             problems.append({"kind": "translator", "what": f, "detail": e[-600:]})
-        ok, log = vlib.make_targets([cfg["coq"].replace(".v", ".vo")])
-        fails = []
-        if not ok:
-            fails = vlib.failing_obligations(log)
-            if not fails:
-                fails = [{"file": "?", "line": 0, "in": "?", "error": log[-600:]}]
-            for f in fails:
-                problems.append({"kind": "proof-obligation", "what": "%s:%s (%s)" % (f["file"], f["line"], f["in"]), "detail": f["error"]})
-        pok, theorems, closed, axioms, plog = (False, [], 0, [], "")
-        if ok:
-            pok, theorems, closed, axioms, plog = vlib.compile_property_file(cfg["coq"])
-            if not pok:
-                problems.append({"kind": "proof-obligation", "what": cfg["coq"], "detail": plog[-600:]})
-        else:
-            import re as _re
-            theorems = _re.findall(r"^\s*(?:Theorem|Corollary)\s+([A-Za-z0-9_']+)", open(os.path.join(vlib.COQ, cfg["coq"])).read(), _re.M)
+        pfiles = cfg["coq"] if isinstance(cfg["coq"], list) else [cfg["coq"]]
+        theorems, closed, axioms, all_ok, all_pok = [], 0, [], True, True
+        for pf in pfiles:
+            ok, log = vlib.make_targets([pf.replace(".v", ".vo")])
+            if not ok:
+                all_ok = False
+                fails = vlib.failing_obligations(log)
+                if not fails:
+                    fails = [{"file": "?", "line": 0, "in": "?", "error": log[-600:]}]
+                for f in fails:
+                    problems.append({"kind": "proof-obligation", "what": "%s:%s (%s)" % (f["file"], f["line"], f["in"]), "detail": f["error"]})
+                theorems += re.findall(r"^\s*(?:Theorem|Corollary)\s+([A-Za-z0-9_']+)", open(os.path.join(vlib.COQ, pf)).read(), re.M)
+                continue
+            pok1, th1, closed1, ax1, plog = vlib.compile_property_file(pf)
+            theorems += th1
+            if pok1:
+                closed += closed1; axioms += ax1
+            else:
+                all_pok = False
+                problems.append({"kind": "proof-obligation", "what": pf, "detail": plog[-600:]})
+        ok, pok = all_ok, all_ok and all_pok
         hy = vlib.hygiene()
         if hy:
             problems.append({"kind": "hygiene", "what": "forbidden construct in the development", "detail": "; ".join(hy[:5])})
         cov["obligations"] = len(theorems)
-        cov["discharged"] = closed + len(axioms) if pok else 0
+        cov["discharged"] = closed + len(axioms)
         cov["theorems"] = theorems
         cov["axioms_reported_by_Print_Assumptions"] = axioms if axioms else ["none: every theorem is closed under the global context"]
-        cov["checker_cmd"] = "make -C coq %s (full .vo build, coqc 8.16.1) && coqc -Q . Bexpr %s (Print Assumptions)" % (cfg["coq"].replace(".v", ".vo"), cfg["coq"])
+        cov["checker_cmd"] = "make -C coq %s (full .vo build, coqc 8.16.1) && coqc -Q . Bexpr <each of: %s> (Print Assumptions)" % (" ".join(p.replace(".v", ".vo") for p in pfiles), " ".join(pfiles))
         cov["hygiene_hits"] = hy
         if pid == "C20" and not ok:
             gd = vlib.grammar_diff()
@@ -83,10 +88,12 @@ def main():
                 # the structural difference IS the failing input of this structural property
                 failing.append({"source": "structural comparison of the regenerated tables", "clause": "grammar.go and grammar.peg differ", "input": gd})
         if tier == "thorough" and ok and pok:
-            cok, cax, clog = vlib.coqchk(cfg["coq"])
-            cov["coqchk"] = {"command": "coqchk -silent -o -Q . Bexpr Bexpr." + cfg["coq"].replace(".v", ""), "ok": cok, "axioms": cax}
-            if not cok:
-                problems.append({"kind": "coqchk", "what": cfg["coq"], "detail": clog[-600:]})
+            cov["coqchk"] = []
+            for pf in pfiles:
+                cok, cax, clog = vlib.coqchk(pf)
+                cov["coqchk"].append({"command": "coqchk -silent -o -Q . Bexpr Bexpr." + pf.replace(".v", ""), "ok": cok, "axioms": cax})
+                if not cok:
+                    problems.append({"kind": "coqchk", "what": pf, "detail": clog[-600:]})
         # ---- 2. model + harness
         mok, mlog = vlib.build_model()
         if not mok:
@@ -131,11 +138,12 @@ def main():
             for v in s.get("violations") or []:
                 v["harness"] = hp
                 direct.append(v)
-            if mok and pid == "C20":
-                # the two tables must BEHAVE alike under one engine and one action semantics: compare model(peg) with model(go)
-                mism, n = vlib.compare_pairs(rd)
-            elif mok:
-                mism, n = vlib.compare(rd)
+            if mok:
+                if pid == "C20":
+                    # the two tables must BEHAVE alike under one engine and one action semantics: compare model(peg) with model(go)
+                    mism, n = vlib.compare_pairs(rd)
+                else:
+                    mism, n = vlib.compare(rd)
                 model_lines += n
                 for m in mism:
                     m["harness"] = hp
